@@ -69,7 +69,7 @@ func (handler *InvHandler) Handle(ctx context.Context, m wire.Message) ([]wire.M
 					// request.
 					handler.tracker.Add(item.Hash)
 				}
-			} else {
+			} else if handler.txs != nil {
 				// The trusted node vouches for a tx that is already tracked (it came from another
 				// peer). Record that with the tx so it survives a restart, the mempool doesn't.
 				handler.txs.MarkTrusted(ctx, item.Hash)
